@@ -51,6 +51,10 @@ type checkCfg struct {
 	Assumptions  []string     `json:"assumptions,omitempty"`
 	Explanation  string       `json:"explanation,omitempty"`
 	SolverTimeMs int          `json:"solver_timeout_ms,omitempty"`
+	// LabelPrefixes: when set, only assertion labels starting with one of
+	// these prefixes (e.g. "C02") — or with no Cnn prefix at all — count for
+	// this property; the others belong to another property's check.
+	LabelPrefixes []string `json:"label_prefixes,omitempty"`
 }
 
 type knownFinding struct {
@@ -331,6 +335,9 @@ func runCheck(repo, prop, tier string, seed, workers int, only string) int {
 			viols = append(viols, res.UncaughtPanics...)
 		}
 		for i, v := range viols {
+			if !labelCounts(cfg.LabelPrefixes, v.Label) {
+				continue
+			}
 			c := replayCase{ID: fmt.Sprintf("%s-%s-%d", r.h.Name, argsStr(res.Args), i), Harness: r.h.Name, Args: res.Args, Model: v.Model, Known: r.known,
 				Expect: v.Label, Kind: v.Kind, Detail: v.Detail}
 			if r.probe != "" {
@@ -394,7 +401,7 @@ func runCheck(repo, prop, tier string, seed, workers int, only string) int {
 			nCover++
 		}
 	}
-	rr := replayAll(prog, pool, repo, vd, prop, toReplay)
+	rr := replayAll(prog, pool, repo, vd, prop, toReplay, cfg.LabelPrefixes)
 	validated := 0
 	exit := 0
 	var violLines []string
@@ -648,7 +655,7 @@ type replayStatus struct {
 	stubs     []string
 }
 
-func replayAll(prog *interp.Program, pool *interp.Pool, repo, vd, prop string, cases []replayCase) map[string]replayStatus {
+func replayAll(prog *interp.Program, pool *interp.Pool, repo, vd, prop string, cases []replayCase, prefixes []string) map[string]replayStatus {
 	out := map[string]replayStatus{}
 	if len(cases) == 0 {
 		return out
@@ -665,7 +672,13 @@ func replayAll(prog *interp.Program, pool *interp.Pool, repo, vd, prop string, c
 		note := ""
 		switch {
 		case c.Kind == "cover":
-			ok = len(labels) == 0 && (outcome.Kind == "ok")
+			mine := 0
+			for _, l := range labels {
+				if labelCounts(prefixes, l) {
+					mine++
+				}
+			}
+			ok = mine == 0 && (outcome.Kind == "ok" || (mine == 0 && len(labels) > 0))
 			if !ok {
 				note = fmt.Sprintf("interpreter replay of cover witness: outcome=%s %s failed=%v", outcome.Kind, outcome.Msg, labels)
 			}
@@ -720,7 +733,13 @@ func replayAll(prog *interp.Program, pool *interp.Pool, repo, vd, prop string, c
 			good := false
 			switch {
 			case c.Kind == "cover":
-				good = r.Status == "ok" && len(r.Failed) == 0
+				mine := 0
+				for _, l := range r.Failed {
+					if labelCounts(prefixes, l) {
+						mine++
+					}
+				}
+				good = r.Status == "ok" && mine == 0
 			case c.Kind == "assert":
 				for _, l := range r.Failed {
 					if l == c.Expect {
@@ -923,3 +942,30 @@ func TestVerifReplay(t *testing.T) {
 	}
 }
 `
+
+// labelCounts decides whether a violated label belongs to this property.
+func labelCounts(prefixes []string, label string) bool {
+	if len(prefixes) == 0 {
+		return true
+	}
+	// labels look like "C02: ..." or "C02/C03: ..."
+	head := label
+	if i := strings.Index(label, ":"); i >= 0 {
+		head = label[:i]
+	} else {
+		return true
+	}
+	hasTag := false
+	for _, part := range strings.Split(head, "/") {
+		part = strings.TrimSpace(part)
+		if len(part) == 3 && part[0] == 'C' && part[1] >= '0' && part[1] <= '9' && part[2] >= '0' && part[2] <= '9' {
+			hasTag = true
+			for _, p := range prefixes {
+				if part == p {
+					return true
+				}
+			}
+		}
+	}
+	return !hasTag
+}
